@@ -17,6 +17,7 @@ fn main() {
         "sched" => sched::run(&args[1..]),
         "bfs" => bfs::run(&args[1..]),
         "faults" => bfs::run_faults(&args[1..]),
+        "replay" => bfs::replay(&args[1..]),
         "paths" => paths_mode::run(&args[1..]),
         "graph" => graph::run(&args[1..]),
         "determ" => determ::run(&args[1..]),
